@@ -2,6 +2,7 @@ package world
 
 import (
 	"context"
+	"sync"
 
 	"github.com/ProtonMail/gluon/db"
 	"github.com/ProtonMail/gluon/imap"
@@ -24,6 +25,8 @@ type FaultDB struct {
 	// Statements: also report (and allow failing) selected statements inside a Write
 	// as boundaries "db.stmt.<Method>".
 	Statements bool
+
+	mu sync.Mutex
 }
 
 type faultClient struct {
@@ -42,14 +45,19 @@ func (f *FaultDB) New(path, userID string) (db.Client, bool, error) {
 func (f *FaultDB) Delete(path, userID string) error { return f.Inner.Delete(path, userID) }
 
 func (f *FaultDB) hook(point string) error {
+	// database steps of different goroutines (sessions, the connector's update loop) reach
+	// this concurrently
+	f.mu.Lock()
 	if f.Calls == nil {
 		f.Calls = map[string]int{}
 	}
 	f.Calls[point]++
-	if f.Hook == nil {
+	h := f.Hook
+	f.mu.Unlock()
+	if h == nil {
 		return nil
 	}
-	return f.Hook(point)
+	return h(point)
 }
 
 func (c *faultClient) Init(ctx context.Context, g imap.UIDValidityGenerator) error {
